@@ -7,6 +7,7 @@
 import Simpleline.Lemmas.SchedFrame
 
 namespace Simpleline
+set_option linter.unusedSimpArgs false
 
 /-- `c'` has the scheduler state of `c`; trace and log have grown -/
 structure SFrame (c' c : Cfg) : Prop where
